@@ -27,11 +27,6 @@ theorem expects_ne_seqend (cfg : Cfg) (g : Group) (exp : String) (h : expects cf
     exp ≠ "SEQEND" := by
   rcases expects_cases cfg g exp h with ⟨_, h2⟩ | ⟨_, h2⟩ <;> subst h2 <;> decide
 
-/-- the requested types contain the linked structures completely (true for SUPPORTED_TYPES) -/
-def ReqLinked (cfg : Cfg) : Prop :=
-  cfg.req "POLYLINE" = true ∧ cfg.req "INSERT" = true ∧ cfg.req "VERTEX" = true ∧ cfg.req "ATTRIB" = true ∧
-    cfg.req "SEQEND" = true
-
 theorem req_of_expects (cfg : Cfg) (hr : ReqLinked cfg) (g : Group) (exp : String) (h : expects cfg g = some exp) :
     cfg.req (dxftype g) = true ∧ cfg.req exp = true := by
   obtain ⟨h1, h2, h3, h4, _⟩ := hr
@@ -137,10 +132,6 @@ theorem qLoop_ent (cfg : Cfg) (hr : ReqLinked cfg) (e : Ent) (hwf : entWF cfg e 
         simp only [Option.toList_some, List.cons_append, List.nil_append, qLoop]
         rw [qLoad_req cfg _ q hqne (by rw [hq]; exact hr.2.2.2.2)]
         simp [qStep, QSt.linkSubs, hq, qEnt, hreqm, hp, Ent.isOpen, hexp, Ent.single, Ent.setSeqend]
-
-/-- what is delivered of a list of linked entities -/
-def delivered (cfg : Cfg) (es : List Ent) : List Ent :=
-  (es.filter (fun e => cfg.req (dxftype e.main) && !cfg.psp e.main)).filter cfg.truthy
 
 theorem finish_qEnt (cfg : Cfg) (st : QSt) (e : Ent) :
     (qEnt cfg st e).finish cfg = st.finish cfg ++ delivered cfg [e] := by
